@@ -471,3 +471,41 @@ func verifC16Constructors() {
 	vAssert(queries == n+1 && len(res) == 1 && int(res[0].(net.IP)[3]) == queries, "after expiry the answer is fetched again")
 	vReach("constructors")
 }
+
+// verifC16FailureBesideSuccess: two lookups of the same name overlap; the
+// upstream fails the first query it gets and answers the second (TTL 3600).
+// Whatever the schedule, the failure is reported to exactly one of them, and
+// the answer the other one fetched is in the cache afterwards: a third lookup
+// within the TTL asks nothing.
+func verifC16FailureBesideSuccess() {
+	vSchedForks(true)
+	vPreemptions(2)
+	clock := int64(7_000_000)
+	timeNow = func() time.Time { return time.Unix(clock, 0) }
+	queries := 0
+	dns.VerifHook_DoH = func(ctx context.Context, msg *dns.Message, URL string) (*dns.Message, error) {
+		queries++
+		n := queries
+		vStall(20) // the upstream takes its time: the other lookup reaches the entry meanwhile
+		if n == 1 {
+			return &dns.Message{QR: 1, RCode: 2}, nil
+		}
+		return &dns.Message{QR: 1, Answer: []dns.RR{{Name: "n1", Type: 1, Class: 1, TTL: 3600, Data: net.IP{10, 0, 0, byte(n)}}}}, nil
+	}
+	r := &Resolver{cache: newResolverCache()}
+	done := make(chan bool, 2)
+	for i := 0; i < 2; i++ {
+		go func() {
+			res, err := r.resolveOne(context.Background(), "n1", "A")
+			vAssert((err != nil) == (len(res) == 0), "a lookup returns an answer or an error")
+			done <- err == nil
+		}()
+	}
+	a, b := <-done, <-done
+	vAssert(a != b && queries == 2, "exactly the lookup whose query failed reports the failure; the other one asked again and succeeded")
+	clock += 10
+	res, err := r.resolveOne(context.Background(), "n1", "A")
+	vAssert(err == nil && len(res) == 1, "the third lookup succeeds")
+	vAssert(queries == 2, "the answer fetched beside a failed lookup is in the cache: within its TTL nothing is asked again")
+	vReach("failure-beside-success")
+}
